@@ -12,10 +12,53 @@
       (or the stronger `∃ r, f input = .ok r` where the Go function has no error result).  Where the
       owning property file already proves it, the theorem is re-exported under the entry point's
       name; the others are proved in Lemmas/C07Total.lean and Lemmas/C14Total.lean.
-    * the allocation clause where the model makes it expressible: `llmnr_name_alloc_bound` (the one
-      decoder that copies more than it reads: compression pointers), and `|output| ≤ |input|` bounds
-      for the decoders whose results are sub-slices or copies of the input (key material, DN-with-
-      binary, PKCS#7, the C06 byte counts).
+    * the allocation clause, as theorems `*_alloc_bound` about every family (summary below).
+
+  ALLOCATION — what is proved.  Size of a value: one per byte of a (byte) string field, 8 per integer
+  field, summed over lists and map entries.  Where the Go code allocates by a number read from the
+  input, the model has a function `…AllocOf` (or, for the SMB command IR, `allocCmd`) that follows the
+  Go `make` / `append` / copy statements in their order and says what has been allocated when the
+  function returns ON EVERY PATH, error returns included; the bound is proved for every input and the
+  decoded value is proved no bigger than that allocation.  An "allocate by the announced count, check
+  the length afterwards" defect is therefore a counterexample to the theorem (an `example` beside
+  each shows the eager variant breaking the bound on a few bytes), not something invisible.
+
+    family / entry point                         bound (L = length of the input)                theorem
+    SMB commands (115, regenerated programs)     allocCmd ≤ 300·L + 154 694 on every path;      smb_decode_alloc_bound,
+                                                  value ≤ initial values + the same              smb_decode_value_alloc_bound
+       every make([]T, c.G) behind its guard     decided by the kernel, proved sufficient       smb_all_commands_alloc_guarded, alloc_guarded_sound
+       nested decoders                           cost ≤ window + 130; value ≤ cost              std_alloc_codecs
+       SMB_STRING make([]UCHAR, n)               n ≤ L; decoded buffer = n                      smb_string_alloc_bound
+       Parameters / Data / Dialects              2·words < L; bytes + 2 ≤ L; Σ names ≤ L        parameters_/data_/dialects_alloc_bound
+    LLMNR DecodeMessage                          48 + L + count·(L² + 32), 5·count + 12 ≤ L     llmnr_decode_message_alloc_bound
+                                                  (polynomial: name compression)                 llmnr_name_alloc_bound
+       RDATA make([]byte, RDLength)              reached only when RDLength bytes follow        llmnr_rdata_alloc_bound
+    NBNS Unmarshal                               8·L                                            nbns_unmarshal_alloc_bound, nbns_rdata_alloc_bound,
+                                                                                                 nbns_first_level_decode_alloc_bound
+    NBT Receive                                  4 + 131 071 whatever is sent (FIXED CAP: the   nbt_receive_alloc_bound
+                                                  body is allocated from the announced length
+                                                  before it is read); a message = that buffer
+    KeyCredential.FromBytes                      allocated ≤ 2·L; size ≤ 3·L + 160              key_credential_parse(_fresh)_alloc_bound
+    RSAKeyMaterial / CustomKeyInformation        ≤ L (views) / ≤ L                              rsa_key_material_parse_alloc_bound, custom_key_information_alloc_bound
+    DNWithBinary.Parse                           ≤ L, = size of the parsed value                dn_with_binary_parse_alloc_bound
+    ConvertToBinaryIdentifier                    ≤ L                                            key_credential_identifier_alloc_bound
+    version / GUID / binary time                 ≤ 20 / 40 / 24                                 key_credential_fixed_alloc_bound
+    ParseTargetInfo                              stored ≤ 2·L on every path; entries ≤ L/4      ntlm_target_info_alloc_bound
+    ParseChallengeMessage                        ≤ 2·L + 48                                     ntlm_challenge_parse_alloc_bound
+    asn1 field / NegTokenResp / ExtractNTLMToken ≤ L / ≤ 8·L / token + 6 ≤ L                    asn1_field_, spnego_neg_token_resp_, spnego_extract_alloc_bound
+    ProcessChallengeToken                        linear in the credentials, ≤ 327 811           spnego_process_challenge_alloc_bound
+    pkcs7.Unpad                                  < L (a re-slice)                               pkcs7_unpad_alloc_bound
+    DecodeUTF16LE                                ≤ 9·(L/2); text ≤ 3·(L/2)                      utf16_decode_alloc_bound
+    GPPPDecryptBytes / Base64                    ≤ 6·L + 16 / ≤ 7·L + 32                        gpp_decrypt_bytes_/gpp_decrypt_base64_alloc_bound
+    ParseSIDFromBytes                            ≤ 10·L; text ≤ 3·L + 2                         sid_alloc_bound
+    GetDomainFromDistinguishedName               result ≤ L; intermediate strings ≤ (L+1)(L+16) dn_domain_alloc_bound
+                                                  — QUADRATIC, and measured so on the real code
+                                                  (fixes/C07-dn-domain-quadratic.diff proposed)
+    UUID / GUID, LDAP times, IP / port / LM:NT   constants (23…64)                              uuid_guid_/ldap_time_/address_parsers_fixed_alloc_bound
+
+  Not modelled (measured only, by the allocation audit of tools/harness/engine.go on the real code):
+  the Go runtime's own overhead per object, `append` growth factors (at most 2), error values and
+  `fmt` temporaries, stdlib scratch space, and the harness's allowance (256 KiB + 1 KiB per input byte).
 
   Termination: every model function is a total Lean definition (structural recursion, or
   well-founded recursion with a proved measure: the LLMNR/NBNS pointer walk, the key-credential
